@@ -159,6 +159,7 @@ func main() {
 	}
 	var reps []*report
 	registered := map[string]bool{}
+	regNames := map[string]string{} // lower-case name (blanks as _) -> constructor, as registerTrans stores them
 	for _, pkg := range pkgs {
 		for _, f := range pkg.Files {
 			for _, d := range f.Decls {
@@ -172,6 +173,13 @@ func main() {
 						if id, ok := c.Fun.(*ast.Ident); ok && id.Name == "registerTrans" && len(c.Args) > 0 {
 							if a, ok := c.Args[0].(*ast.Ident); ok {
 								registered[a.Name] = true
+								for _, n := range c.Args[1:] {
+									if lit, ok := n.(*ast.BasicLit); ok && lit.Kind == token.STRING {
+										regNames[strings.ReplaceAll(strings.ToLower(strings.Trim(lit.Value, "\"`")), " ", "_")] = a.Name
+									} else {
+										regNames["(not a literal)"] = a.Name
+									}
+								}
 							}
 						}
 					}
@@ -201,6 +209,21 @@ func main() {
 	}
 	fmt.Println("]")
 	fmt.Printf("/-- constructors passed to registerTrans -/\ndef registered : List String := %s\n", keys(registered))
+	var rn []string
+	for n := range regNames {
+		rn = append(rn, n)
+	}
+	sort.Strings(rn)
+	fmt.Println("/-- the registry `projections`: lower-case name (blanks written _) ↦ constructor, from the registerTrans calls -/")
+	fmt.Println("def regNames : List (String × String) := [")
+	for i, n := range rn {
+		c := ","
+		if i == len(rn)-1 {
+			c = ""
+		}
+		fmt.Printf("  (%q, %q)%s\n", n, regNames[n], c)
+	}
+	fmt.Println("]")
 	pathReport(pkgs)
 	fmt.Println("end GeomV.C10.Gen")
 }
